@@ -172,6 +172,14 @@ def _loader_subs(tier):
                     'events': [ev]}
             subs.append(('loader-%s-%s' % (sname, '_'.join(map(str, ev))),
                          spec))
+    # the manifest of a placed instance is rewritten with another size and an
+    # 'apps' event re-evaluates it: whatever the loader does with the new
+    # size, the server's books must stay consistent with the model
+    for sname, recs in [('r0_1', [[0], [1]]), ('r0_0', [[0], [0]])]:
+        spec = {'level': 'loader', 'nservers': 2,
+                'apps': [{'recorded': r} for r in recs],
+                'events': [['app_resize', 0], ['none']]}
+        subs.append(('loader-resize-%s' % sname, spec))
     # start-up on a stored state that lists one instance under two servers
     # (what a crash of the previous master, or an operator, can leave behind):
     # Loader.restore_placements has to end with the instance on at most one
@@ -205,6 +213,8 @@ def _loader_harness(S, spec):
     S.reach('scheduled')
     if spec['events'][0][0] == 'server_edit':
         S.reach('server_record_edited')
+    elif spec['events'][0][0] == 'app_resize':
+        S.reach('manifest_rewritten')
     else:
         S.reach('started_on_duplicate_records')
     b = W.backend
@@ -212,7 +222,12 @@ def _loader_harness(S, spec):
         declared = b.get('/servers/' + sname)['memory']
         tot = z3.IntVal(0)
         for an in srv.apps:
-            tot = tot + S.z(W.demand[an])
+            if an in getattr(W, 'resized', {}):
+                # whichever size the loader settled on for a rewritten
+                # manifest, it is the one the model carries
+                tot = tot + S.z(m.cell.apps[an].demand[0])
+            else:
+                tot = tot + S.z(W.demand[an])
         S.check('C01:oversubscribed_against_declared_capacity',
                 tot <= S.z(declared), {'server': sname})
         S.check('C01:free_differs_from_declared_capacity_minus_sum',
